@@ -16,6 +16,7 @@ from values import *  # noqa
 sys.setrecursionlimit(20000)
 
 INTRINSICS = {}          # exact function name -> handler(ex, args, ins, where)
+GLOBAL_FIXUPS = {}       # global name suffix -> fn(ex) -> value stored in the global
 PREFIX_INTRINSICS = []   # (prefix, handler)
 
 
@@ -1730,6 +1731,15 @@ class Exec:
                     self.init_notes.append('%s: %s' % (it['pkg'], e))
         self.max_steps = saved_steps
         self.lenient = False
+        # globals whose initialiser needs code outside the encoder (e.g. curve parameters) are patched with
+        # their documented constant values
+        for gname, fix in GLOBAL_FIXUPS.items():
+            for full in list(self.ir['globals']):
+                if full.endswith(gname):
+                    g = self.globals.get(full)
+                    if g is None:
+                        g = self.globals[full] = self.new_obj(None)
+                    self.heap[g] = fix(self)
         self.base_heap = list(self.heap)
         self.base_globals = dict(self.globals)
         self.stats['init_instrs'] = self.stats['instrs']
